@@ -542,3 +542,169 @@ example : (construct { solution := true, hasSeg := true, ndim := 4 }).computed =
     activeKeys (construct { solution := true, hasSeg := true, ndim := 4 }) = ["pos", "area", "track_id", "lineage_id"] :=
   ⟨by decide, by decide⟩
 #print axioms C04_construct_ids_empty
+
+/-! ## `SolutionTracks.from_tracks` as repaired (fix commit 895cc32) -/
+
+/-- `from_tracks` of ANY tracks object whose FeatureDict names a tracklet key `tk` (in particular
+    a plain `Tracks` built without FeatureDict, whose FeatureDict names the id keys without
+    registering them): the call returns normally; the result is a solution whose TrackAnnotator
+    manages `tk` (and the lineage key `lk` if the FeatureDict names one); these keys are the
+    FeatureDict's special keys, registered and active; the ids are recomputed in bulk iff some
+    node lacked a value under `tk` or under the lineage key (`fromForce`; a FeatureDict without
+    lineage key counts as "every node lacks it") — then the lookups are the computed ones —, and
+    otherwise nothing is computed, the graph is untouched and the lookups are the ones
+    `_get_max_id_and_map` builds from the existing ids (`C06_construct_book_from_graph`). -/
+theorem C04_from_tracks_ids_active (t : COut) (tk : Name) (htk : t.trackletKey = some tk) :
+    ∃ s a, fromTracks t = some s ∧ s.solution = true ∧ s.track = some a ∧ a.tKey = tk ∧
+      s.trackletKey = some tk ∧ tk ∈ regKeys s ∧ tk ∈ activeKeys s ∧
+      (∀ lk, t.lineageKey = some lk →
+        a.lKey = lk ∧ s.lineageKey = some lk ∧ lk ∈ regKeys s ∧ lk ∈ activeKeys s) ∧
+      (t.lineageKey = none → tk ≠ "lineage_id" → s.lineageKey = none) ∧
+      (fromForce t = true →
+        (AKind.track, tk) ∈ s.computed ∧ a.tSrc = BookSrc.computed ∧
+        ∀ lk, t.lineageKey = some lk → (AKind.track, lk) ∈ s.computed ∧ a.lSrc = BookSrc.computed) ∧
+      (fromForce t = false →
+        s.computed = [] ∧ s.nodes = t.nodes ∧
+        (t.nodes ≠ [] → a.tSrc = BookSrc.fromGraph ∧ (a.maxT, a.t2n) = maxIdMap t.nodes tk ∧
+          ∀ lk, t.lineageKey = some lk → a.lSrc = BookSrc.fromGraph ∧ (a.maxL, a.l2n) = maxIdMap t.nodes lk)) := by
+  -- the constructor call inside `from_tracks`
+  let i : CInput := { solution := true, hasSeg := t.hasSeg, ndim := t.ndim,
+                      prebuilt := some (prebuiltOf t), nodes := t.nodes, edges := t.edges }
+  let m := mkAnnotators (ofPrebuilt i (prebuiltOf t))
+  have hsoln : fromSoln t = activateFromDict m := rfl
+  have hA := activateFromDict_actOnly m
+  have hB := trackBook_activateFromDict m
+  rw [← hsoln] at hA hB
+  have hm_track : m.track = some (mkTrack t.nodes t.trackletKey t.lineageKey) := rfl
+  have hm_nodes : m.nodes = t.nodes := rfl
+  have hm_comp : m.computed = [] := rfl
+  have hS_tk : (fromSoln t).trackletKey = some tk := hA.same.trackletKey.trans htk
+  have hS_lk : (fromSoln t).lineageKey = t.lineageKey := hA.same.lineageKey
+  -- the TrackAnnotator of `soln`
+  have hbook : trackBook (fromSoln t) = trackBook m := hB
+  obtain ⟨a1, ha1⟩ : ∃ a1, (fromSoln t).track = some a1 := by
+    unfold trackBook at hbook
+    rw [hm_track] at hbook
+    cases h : (fromSoln t).track with
+    | none => rw [h] at hbook; simp at hbook
+    | some a1 => exact ⟨a1, rfl⟩
+  have hb1 : (a1.tKey, a1.lKey, keysOf a1.table, a1.t2n, a1.l2n, a1.maxT, a1.maxL, a1.tSrc, a1.lSrc) =
+      ((mkTrack t.nodes t.trackletKey t.lineageKey).tKey, (mkTrack t.nodes t.trackletKey t.lineageKey).lKey,
+       keysOf (mkTrack t.nodes t.trackletKey t.lineageKey).table, (mkTrack t.nodes t.trackletKey t.lineageKey).t2n,
+       (mkTrack t.nodes t.trackletKey t.lineageKey).l2n, (mkTrack t.nodes t.trackletKey t.lineageKey).maxT,
+       (mkTrack t.nodes t.trackletKey t.lineageKey).maxL, (mkTrack t.nodes t.trackletKey t.lineageKey).tSrc,
+       (mkTrack t.nodes t.trackletKey t.lineageKey).lSrc) := by
+    unfold trackBook at hbook
+    rw [hm_track, ha1] at hbook
+    simpa using hbook
+  simp only [Prod.mk.injEq] at hb1
+  obtain ⟨b1, b2, b3, b4, b5, b6, b7, b8, b9⟩ := hb1
+  have ha1t : a1.tKey = tk := by rw [b1, mkTrack_tKey, htk]; rfl
+  have ha1l : a1.lKey = t.lineageKey.getD "lineage_id" := by rw [b2, mkTrack_lKey]
+  have hkeys1 : ∀ k, k ∈ keysOf a1.table ↔ k = tk ∨ k = t.lineageKey.getD "lineage_id" := by
+    intro k; rw [b3, mem_tableKeys_mkTrack, htk]; rfl
+  -- the keys handed to `enable_features`
+  generalize hkeys : ([(fromSoln t).trackletKey, (fromSoln t).lineageKey].filterMap id) = keys
+  have hkeys' : keys = tk :: (match t.lineageKey with | some lk => [lk] | none => []) := by
+    rw [← hkeys, hS_tk, hS_lk]; cases t.lineageKey <;> rfl
+  have htk_mem : tk ∈ keys := by rw [hkeys']; exact mem_cons_self
+  have hlk_mem : ∀ lk, t.lineageKey = some lk → lk ∈ keys := by
+    intro lk hl; rw [hkeys', hl]; simp
+  have hsub : ∀ k ∈ keys, k ∈ keysOf a1.table := by
+    intro k hk
+    rw [hkeys'] at hk
+    rw [hkeys1]
+    rcases mem_cons.1 hk with h | h
+    · exact Or.inl h
+    · cases hl : t.lineageKey with
+      | none => rw [hl] at h; cases h
+      | some lk => rw [hl] at h; right; simpa using h
+  have hall : ∀ k ∈ keys, k ∈ tableKeys (fromSoln t) := by
+    intro k hk
+    rw [mem_tableKeys]
+    have := hsub k hk
+    simp only [keysOf, mem_map] at this
+    obtain ⟨e, he, hek⟩ := this
+    refine ⟨(AKind.track, a1.table), ?_, e, he, hek⟩
+    unfold annTables; rw [ha1]; simp
+  have hen : enable (fromSoln t) keys (fromForce t) =
+      some (if fromForce t then computeAll (enableCore (fromSoln t) keys) keys else enableCore (fromSoln t) keys) :=
+    (enable_eq_some_iff _ _ _ _).2 ⟨hall, rfl⟩
+  have hft : fromTracks t = enable (fromSoln t) keys (fromForce t) := by
+    unfold fromTracks; rw [htk]; simp only; rw [hkeys]
+  generalize hs : (if fromForce t then computeAll (enableCore (fromSoln t) keys) keys
+      else enableCore (fromSoln t) keys) = s at hen
+  have hG := enable_grow hen
+  have hsp := enable_special hen ha1
+  obtain ⟨a, hsa, hat, hal⟩ := trackKeys_some hG.trackKeys ha1
+  have hsol : s.solution = true := by rw [hG.solution]; exact hA.same.solution
+  have hct : keys.contains a1.tKey = true := by rw [ha1t]; simpa using htk_mem
+  refine ⟨s, a, hft.trans hen, hsol, hsa, hat.trans ha1t, ?_, (hG.reg _).2 (Or.inr htk_mem),
+    (hG.act _).2 (Or.inr htk_mem), ?_, ?_, ?_, ?_⟩
+  · rw [hsp.1, if_pos hct, ha1t]
+  · intro lk hl
+    have hl1 : a1.lKey = lk := by rw [ha1l, hl]; rfl
+    have hcl : keys.contains a1.lKey = true := by rw [hl1]; simpa using hlk_mem lk hl
+    refine ⟨hal.trans hl1, ?_, (hG.reg _).2 (Or.inr (hlk_mem lk hl)), (hG.act _).2 (Or.inr (hlk_mem lk hl))⟩
+    rw [hsp.2, if_pos hcl, hl1]
+  · intro hl hne
+    have hcl : keys.contains a1.lKey = false := by
+      rw [ha1l, hl, hkeys', hl]
+      simp only [Option.getD_none, contains_cons, contains_nil, Bool.or_false, beq_eq_false_iff_ne, ne_eq]
+      exact fun h => hne h.symm
+    rw [hsp.2, hcl]
+    simp only [Bool.false_eq_true, if_false]
+    rw [hS_lk, hl]
+  · intro hf
+    rw [hf] at hs
+    simp only [if_true] at hs
+    obtain ⟨hce, hct3⟩ := computeAll_track_eq (enableCore (fromSoln t) keys) keys
+    obtain ⟨_, _, _, _, _, _, f7⟩ := enableCore_fields (fromSoln t) keys
+    have h3 : (edgeCompute (rpCompute (enableCore (fromSoln t) keys) keys) keys).track =
+        some { a1 with table := activateTbl keys a1.table } := by rw [hct3, f7, ha1]; rfl
+    have hact_t : a1.tKey ∈ filterActive (activateTbl keys a1.table) keys :=
+      mem_filterActive_activate (by rw [ha1t]; exact htk_mem) (by rw [ha1t]; exact hsub tk htk_mem)
+    obtain ⟨r1, a', r2, r3⟩ := trackCompute_runs_t _ keys _ h3 hact_t
+    rw [← hce, hs] at r1 r2
+    rw [hsa] at r2; injection r2 with r2
+    refine ⟨by rw [← ha1t]; exact r1, by rw [r2]; exact r3, ?_⟩
+    intro lk hl
+    have hl1 : a1.lKey = lk := by rw [ha1l, hl]; rfl
+    have hact_l : a1.lKey ∈ filterActive (activateTbl keys a1.table) keys :=
+      mem_filterActive_activate (by rw [hl1]; exact hlk_mem lk hl) (by rw [hl1]; exact hsub lk (hlk_mem lk hl))
+    obtain ⟨q1, a'', q2, q3⟩ := trackCompute_runs_l _ keys _ h3 hact_l
+    rw [← hce, hs] at q1 q2
+    rw [hsa] at q2; injection q2 with q2
+    exact ⟨by rw [← hl1]; exact q1, by rw [q2]; exact q3⟩
+  · intro hf
+    rw [hf] at hs
+    simp only [Bool.false_eq_true, if_false] at hs
+    obtain ⟨f1, _, f3, _, _, _, f7⟩ := enableCore_fields (fromSoln t) keys
+    rw [hs] at f1 f3 f7
+    have hsa' : a = { a1 with table := activateTbl keys a1.table } := by
+      rw [hsa, ha1] at f7; injection f7 with f7
+    refine ⟨by rw [f3, hA.computed]; exact hm_comp, by rw [f1, hA.nodes]; exact hm_nodes, ?_⟩
+    intro hne
+    obtain ⟨n0, rest, hn⟩ : ∃ n0 rest, t.nodes = n0 :: rest := by
+      cases hnn : t.nodes with
+      | nil => exact absurd hnn hne
+      | cons n0 rest => exact ⟨n0, rest, rfl⟩
+    obtain ⟨g1, g2, g3⟩ := mkTrack_cons_gen n0 rest t.trackletKey t.lineageKey
+    rw [← hn] at g1 g2 g3
+    have hgd : t.trackletKey.getD "tracklet_id" = tk := by rw [htk]; rfl
+    rw [hgd] at g2
+    refine ⟨by rw [hsa']; exact b8.trans g1, by rw [hsa']; show (a1.maxT, a1.t2n) = _; rw [b6, b4]; exact g2, ?_⟩
+    intro lk hl
+    obtain ⟨g4, g5⟩ := g3 lk hl
+    exact ⟨by rw [hsa']; exact b9.trans g4, by rw [hsa']; show (a1.maxL, a1.l2n) = _; rw [b7, b5]; exact g5⟩
+
+-- plain tracks with ids on every node: activated and registered, nothing recomputed
+example : (construct exPlain).trackletKey = some "track_id" ∧ fromForce (construct exPlain) = false := by decide
+-- first node without ids: recomputed
+example : fromForce (construct { solution := false, hasSeg := false, ndim := 3, nodes := exNodes, edges := exEdges }) = true := by
+  decide
+example : ∃ s a, fromTracks (construct exPlain) = some s ∧ s.solution = true ∧ s.track = some a ∧ a.tKey = "track_id" ∧
+    s.trackletKey = some "track_id" ∧ "track_id" ∈ regKeys s ∧ "track_id" ∈ activeKeys s := by
+  obtain ⟨s, a, h1, h2, h3, h4, h5, h6, h7, _⟩ := C04_from_tracks_ids_active (construct exPlain) "track_id" (by decide)
+  exact ⟨s, a, h1, h2, h3, h4, h5, h6, h7⟩
+#print axioms C04_from_tracks_ids_active
